@@ -247,10 +247,15 @@ func (e *timeoutShaped) Temporary() bool { return true }
 var docErrs = func() []error {
 	es := make([]error, 64)
 	for i := range es {
-		switch i % 4 {
-		case 1:
+		switch {
+		case i%8 == 3:
+			// what a run that honours its context returns when the caller (or anybody) cancels: still a failed query
+			es[i] = fmt.Errorf("injected failure #%d: %w", i, context.Canceled)
+		case i%8 == 7:
+			es[i] = fmt.Errorf("injected failure #%d: %w", i, context.DeadlineExceeded)
+		case i%4 == 1:
 			es[i] = &timeoutShaped{i}
-		case 2:
+		case i%4 == 2:
 			es[i] = &net.OpError{Op: "read", Net: "ip4", Err: &timeoutShaped{i}}
 		default:
 			es[i] = fmt.Errorf("injected failure #%d", i)
@@ -400,8 +405,13 @@ func genDocQuery(r *rng, maxTTL int, e2e bool, used map[int64]bool) docQuery {
 	if e2e {
 		n = 1
 	}
+	// runs that start above TTL 1 (MinTTL > 1): hop i carries TTL base + i + 1
+	base := 0
+	if !e2e && r.intn(3) == 0 {
+		base = 1 + r.intn(4)
+	}
 	for i := 0; i < n; i++ {
-		h := docHop{ttl: i + 1}
+		h := docHop{ttl: base + i + 1}
 		if e2e {
 			h.ttl = maxTTL
 		}
